@@ -44,7 +44,7 @@ func runArrivalScenarios(res *caseResult, idx int, dir string, rnd *rand.Rand) {
 	v := func() float64 { return float64(1 + rnd.Intn(9)) }
 	// distinct values so that the winner is identifiable
 	vals := rnd.Perm(9)
-	a, b, c := float64(vals[0]+1), float64(vals[1]+1), float64(vals[2]+1)
+	a, b, c, d := float64(vals[0]+1), float64(vals[1]+1), float64(vals[2]+1), float64(vals[3]+1)
 	_ = v
 	scenarios := map[string][]arrivalStep{
 		"same-window": {
@@ -73,8 +73,25 @@ func runArrivalScenarios(res *caseResult, idx int, dir string, rnd *rand.Rand) {
 			{op: "w", value: a}, {op: "flush"}, {op: "w", value: b}, {op: "flush"}, {op: "w", value: c},
 			{op: "check", stage: "two-table-files-plus-memdb-at-query"},
 		},
+		// a and b merged into a level 1 file, c in a younger level 0 file (version.FindFiles lists level 0 first), then a
+		// memory database on top, then everything merged
+		"level1-plus-level0": {
+			{op: "w", value: a}, {op: "flush"}, {op: "w", value: b}, {op: "flush"}, {op: "compact"},
+			{op: "w", value: c}, {op: "flush"}, {op: "check", stage: "level1-file-plus-level0-file-at-query"},
+			{op: "w", value: d}, {op: "check", stage: "level1-file-plus-level0-file-plus-memdb-at-query"},
+			{op: "flush"}, {op: "check", stage: "level1-file-plus-two-level0-files-at-query"},
+			{op: "compact"}, {op: "check", stage: "level1-file-merged-with-level0-files-by-compaction"},
+			{op: "reopen"}, {op: "check", stage: "level1-file-merged-with-level0-files-by-compaction-reopened"},
+		},
+		// immutable memory database (flush parked is not needed: the mutable one of the next generation after reopen)
+		"file-plus-compress-buffer-plus-window": {
+			{op: "w", value: a}, {op: "flush"}, {op: "w", value: b}, {op: "w", slot: 30, value: 7}, {op: "w", value: c},
+			{op: "check", stage: "table-file-plus-compress-buffer-plus-window-at-query"},
+			{op: "flush"}, {op: "check", stage: "table-file-plus-flushed-compress-buffer-and-window-at-query"},
+		},
 	}
-	names := []string{"same-window", "compress-buffer", "compress-buffer-flush", "file-plus-memdb", "two-files", "three-generations"}
+	names := []string{"same-window", "compress-buffer", "compress-buffer-flush", "file-plus-memdb", "two-files", "three-generations",
+		"level1-plus-level0", "file-plus-compress-buffer-plus-window"}
 	sc := &schema{Shards: 1, Hours: 3, Base: baseTime(3)}
 	for _, name := range names {
 		sdir := filepath.Join(dir, name)
